@@ -427,7 +427,14 @@ def build_apply_file(case):
     real = '.dynsym' if decoy and decoy['real'] == 'dynsym' else '.symtab'
     named = []      # (name, dict, link name, info name)
     for t in case['targets']:
-        named.append((t['name'], {'sh_type': t.get('sh_type', 1), 'sh_flags': t.get('sh_flags', 0), 'sh_addralign': 1, 'data': t['data']}, None, None))
+        tdata, tflags = t['data'], t.get('sh_flags', 0)
+        if case.get('zcomp') and t['name'].startswith('.debug_') and t.get('sh_type', 1) == 1 and not tflags & 2:
+            # the target stored SHF_COMPRESSED (gcc -gz / objcopy --compress-debug-sections on an object file): relocation offsets address the
+            # inflated contents, whatever the stored size is
+            import zlib
+            tdata = W.enc_chdr(cls, le, 1, len(tdata), 1) + zlib.compress(bytes(tdata), 9)
+            tflags |= 0x800
+        named.append((t['name'], {'sh_type': t.get('sh_type', 1), 'sh_flags': tflags, 'sh_addralign': 1, 'data': tdata}, None, None))
         if t.get('relsec', True):
             rela = t['rela']
             ents = [(r['off'], r['sym'], r['type'], r.get('addend', 0)) + tuple(r.get('sub') or (0, 0, 0)) for r in t['relocs']]
@@ -955,6 +962,8 @@ def gen_apply(ch, tier, mk=None, le=None, neg='auto'):
         targets[-1]['relocs'] = []
     case = {'kind': 'apply', 'mk': mk, 'em': em, 'cls': cls, 'le': le, 'syms': syms, 'targets': targets,
             'syminfo': [ch.choice([0x03, 0x00, 0x01, 0x10, 0x11, 0x04, 0x05, 0x06, 0x1a, 0x2d, 0x16, 0x0f]) for _ in range(3)], 'symshndx': [ch.choice([1, 2, 0xfff1]) for _ in range(3)]}
+    if ch.bool(0.25):
+        case['zcomp'] = True
     victim = targets[0]
     if neg == 'none_end':
         case['none_end'] = True
@@ -1082,6 +1091,8 @@ def _apply_case(mk, le, data, relocs, syms, rela=None, em=None, name='.debug_inf
     case = {'kind': 'apply', 'mk': mk if em is None else None, 'em': spec['em'] if em is None else em, 'cls': spec['cls'], 'le': le, 'syms': syms,
             'targets': [{'name': name, 'data': bytes(data), 'rela': spec['rela'] if rela is None else rela, 'relocs': relocs}],
             'syminfo': [3, 0, 1, 6, 0x1a, 4], 'symshndx': [1, 0xfff1, 2]}
+    if (len(data) + len(relocs) + bool(le)) % 3 == 0:
+        case['zcomp'] = True
     case.update(kw)
     return case
 
